@@ -856,7 +856,7 @@ impl Drop for Silence {
     }
 }
 
-fn scratch() -> &'static PathBuf {
+pub(crate) fn scratch() -> &'static PathBuf {
     static DIR: OnceLock<PathBuf> = OnceLock::new();
     DIR.get_or_init(|| {
         let dir = std::env::temp_dir().join(format!("vcheck-c18-{}", std::process::id()));
@@ -918,7 +918,7 @@ fn check_stdin(case: &Json, stats: &mut Stats) -> Verdict {
 
 // ---------- file system: differential against std::fs on a twin directory ----------
 
-fn build_state(root: &std::path::Path) {
+pub(crate) fn build_state(root: &std::path::Path) {
     let _ = std::fs::remove_dir_all(root);
     std::fs::create_dir_all(root.join("dir/sub")).unwrap();
     std::fs::create_dir_all(root.join("empty")).unwrap();
@@ -950,7 +950,7 @@ fn snapshot(root: &std::path::Path) -> Vec<String> {
     out
 }
 
-const FS_PATHS: [&str; 14] = [
+pub(crate) const FS_PATHS: [&str; 14] = [
     "file", "missing", "dir", "empty", "dir/inner", "dir/sub", "file/below", "missing/below", "occupied", "binary", "new/deep/er",
     "", "nul\0byte", "dir/../file",
 ];
@@ -1069,6 +1069,31 @@ fn check_fs(case: &Json, stats: &mut Stats) -> Verdict {
     Verdict::Pass
 }
 
+/// every std.fs function on every pair of paths of the scratch tree
+pub(crate) fn fs_cases() -> Vec<Json> {
+    let mut fs_cases = vec![];
+    for op in ["file_read_to_string", "remove_file", "remove_dir", "remove_dir_all", "create_dir", "create_dir_all"] {
+        for a in FS_PATHS {
+            fs_cases.push(json!({"kind": "fs", "op": op, "a": a, "b": ""}));
+        }
+    }
+    for a in FS_PATHS {
+        for c in ["", "text", "zażółć\n"] {
+            fs_cases.push(json!({"kind": "fs", "op": "write_to_file", "a": a, "b": "", "contents": c}));
+        }
+        for b in FS_PATHS {
+            fs_cases.push(json!({"kind": "fs", "op": "copy_file", "a": a, "b": b}));
+            fs_cases.push(json!({"kind": "fs", "op": "rename", "a": a, "b": b}));
+        }
+    }
+    fs_cases
+}
+
+/// declared type of an export of std
+pub(crate) fn declared(path: &str) -> Option<Ty> {
+    find(path).map(|e| Ty::from_real(&e.value.as_type()))
+}
+
 pub fn run(session: &Session) -> i32 {
     crate::engine::run_regressions(session, &C18);
     let _ = scratch();
@@ -1086,21 +1111,7 @@ pub fn run(session: &Session) -> i32 {
         }
     }
     session.set_extra("exports_discovered", json!(names));
-    let mut fs_cases = vec![];
-    for op in ["file_read_to_string", "remove_file", "remove_dir", "remove_dir_all", "create_dir", "create_dir_all"] {
-        for a in FS_PATHS {
-            fs_cases.push(json!({"kind": "fs", "op": op, "a": a, "b": ""}));
-        }
-    }
-    for a in FS_PATHS {
-        for c in ["", "text", "zażółć\n"] {
-            fs_cases.push(json!({"kind": "fs", "op": "write_to_file", "a": a, "b": "", "contents": c}));
-        }
-        for b in FS_PATHS {
-            fs_cases.push(json!({"kind": "fs", "op": "copy_file", "a": a, "b": b}));
-            fs_cases.push(json!({"kind": "fs", "op": "rename", "a": a, "b": b}));
-        }
-    }
+    let fs_cases = fs_cases();
     if !session.stopped() {
         session.run_enum(&C18, pure);
     }
